@@ -167,7 +167,16 @@ fn drain<I: Iterator<Item = Result<Vec<u8>, chunk::Error>>>(it: I, content: Opti
     match r { Out::Panic(m) => { items.push(Item::Boom(panic_code(&m))); (items, Some(m)) } _ => (items, None) }
 }
 
+fn quiet() { std::panic::set_hook(Box::new(|_| {})); }
+fn loud() { std::panic::set_hook(Box::new(|i| eprintln!("c43 harness bug: {}", i))); }
+
 fn run_call(call: &Call, sc: &mut Scratch, bases: &[Base], bad_content: &mut bool) -> Obs {
+    quiet();
+    let r = run_call_inner(call, sc, bases, bad_content);
+    loud();
+    r
+}
+fn run_call_inner(call: &Call, sc: &mut Scratch, bases: &[Base], bad_content: &mut bool) -> Obs {
     match call {
         Call::Chunk(s) => {
             sc.materialize(std::slice::from_ref(s), bases);
@@ -240,12 +249,12 @@ fn be64(b: &[u8], i: usize) -> u64 { let mut x = [0u8; 8]; x.copy_from_slice(&b[
 /// offsets worth trying for a u64 block offset whose honest value is `cur`
 fn evil_u64(rng: &mut Rng, prev: u64, cur: u64, next: u64, clen: u64) -> u64 {
     match rng.below(22) {
-        0 => 0, 1 => prev, 2 => prev.wrapping_sub(1), 3 => prev + 1, 4 => cur.wrapping_sub(1), 5 => cur + 1,
-        6 => next, 7 => next + 1, 8 => clen, 9 => clen + 1, 10 => clen.wrapping_sub(1),
+        0 => 0, 1 => prev, 2 => prev.wrapping_sub(1), 3 => prev.wrapping_add(1), 4 => cur.wrapping_sub(1), 5 => cur.wrapping_add(1),
+        6 => next, 7 => next.wrapping_add(1), 8 => clen, 9 => clen.wrapping_add(1), 10 => clen.wrapping_sub(1),
         11 => 1 << 31, 12 => 1 << 32, 13 => (1 << 33) + rng.below(1000),
         14 => i64::MAX as u64, 15 => 1 << 63, 16 => u64::MAX, 17 => u64::MAX - rng.below(1 << 20),
         18 => 1u64 << rng.range(46, 62),                       // allocation the system refuses
-        19 => rng.below(clen + 2), 20 => cur ^ (1 << rng.below(64)),
+        19 => rng.below(clen.saturating_add(2)), 20 => cur ^ (1 << rng.below(64)),
         _ => rng.next(),
     }
 }
@@ -314,8 +323,8 @@ fn synth(rng: &mut Rng, name: u32) -> Spec {
             2 => { if prim.len() >= 5 { let w = rng.below(((prim.len() - 1) / 4) as u64) as usize; let c = be32(&prim, 1 + 4 * w);
                      let v = evil_u32(rng, c.wrapping_sub(56), c, c.wrapping_add(56), sec.len() as u32); prim[1 + 4 * w..5 + 4 * w].copy_from_slice(&v.to_be_bytes()); } }
             3 => { if sec.len() >= 56 { let e = rng.below((sec.len() / 56) as u64) as usize; let c = be64(&sec, 56 * e);
-                     let v = evil_u64(rng, c.wrapping_sub(10), c, c + 10, clen); sec[56 * e..56 * e + 8].copy_from_slice(&v.to_be_bytes()); } }
-            4 => { clen = rng.below(clen + 2); }
+                     let v = evil_u64(rng, c.wrapping_sub(10), c, c.wrapping_add(10), clen); sec[56 * e..56 * e + 8].copy_from_slice(&v.to_be_bytes()); } }
+            4 => { clen = rng.below(clen.saturating_add(2)); }
             5 => { let k = rng.below(6) as usize; prim.extend(rng.bytes(k)); }
             6 => { let k = rng.below(60) as usize; sec.extend(rng.bytes(k)); }
             7 => { if prim.len() >= 9 { let w = rng.below(((prim.len() - 1) / 4) as u64) as usize; let v = (rng.below(8) * 28) as u32; prim[1 + 4 * w..5 + 4 * w].copy_from_slice(&v.to_be_bytes()); } }
@@ -332,7 +341,7 @@ fn sweep_points(rng: &mut Rng, len: usize, thorough: bool, budget: usize) -> Vec
     let stride = (len / budget.max(1)).max(1);
     let phase = rng.below(stride as u64) as usize;
     for k in 0..len {
-        let edge = k <= 16 || k + 16 >= len;
+        let edge = k <= 8 || k + 8 >= len;
         let sampled = k % stride == phase;
         if thorough { v.push((k, edge || sampled)); } else if edge || sampled { v.push((k, true)); }
     }
@@ -357,7 +366,7 @@ fn generate(rng: &mut Rng, bases: &[Base], n: usize, thorough: bool) -> Vec<(Str
         g.out.push(("witness".into(), Call::Chunk(Spec { name: 7, prim: Src::Lit(prim), sec: Src::Lit(sec), chunk_real: None, chunk_len: 10 }), true));
     }
     // truncation sweeps of the index files
-    let budget = if thorough { (n / 12).max(40) } else { (n / 60).max(6) };
+    let budget = if thorough { (n / 12).max(40) } else { (n / 80).max(5) };
     for i in 0..nb {
         for (k, m) in sweep_points(rng, bases[i].prim.len(), thorough, budget) {
             g.out.push(("truncate-primary".into(), Call::Chunk(real_spec(bases, i, vec![Edit::Trunc(k)], vec![], None)), m));
@@ -469,6 +478,7 @@ fn worker(a: &Args, scratch: &Path, skip: usize, profile: &str) {
 
 fn main() {
     let a = args();
+    loud();
     let mut scratch: Option<PathBuf> = None;
     let mut skip = 0usize;
     let mut is_worker = false;
@@ -497,7 +507,7 @@ fn main() {
         cmd.args(["--seed", &a.seed.to_string(), "--n", &a.n.to_string(), "--tier", &a.tier, "--profile", &profile,
                   "--worker", "--scratch", dir.to_str().unwrap(), "--skip", &skip.to_string()]);
         if a.oracle_only { cmd.arg("--oracle-only"); }
-        let mut child = cmd.stdout(Stdio::piped()).stderr(Stdio::null()).spawn().expect("spawn worker");
+        let mut child = cmd.stdout(Stdio::piped()).stderr(Stdio::inherit()).spawn().expect("spawn worker");
         let rd = BufReader::new(child.stdout.take().unwrap());
         let mut inflight: Option<(usize, String, String)> = None;
         for line in rd.lines() {
